@@ -19,7 +19,10 @@ EXTENDS Integers, Sequences, TLC, Json
 
 VARIABLES Op,        \* "send" | "sendclose" | "free"    (chosen initially)
           Ending,    \* "drain" | "drop"                  (chosen initially)
-          qfull,     \* the write queue has no room (the peer does not read)
+          Cause,     \* what blocks: "queue" (write queue full) | "window" (the channel's send window is used up: only Send
+                     \* waits for it, with the caller's context AND the channel's, channel_state.go decrementSendWindow);
+                     \* "drain" then stands for the peer's window update
+          qfull,     \* the write queue has no room (the peer does not read) / the window is used up
           dropped,   \* the connection is gone
           chClosed,  \* X was ended by the peer: closed flag set, channel context cancelled
           phase,     \* "none" | "waiting" (inside conn.send, waiting for room) | "returned"
@@ -27,14 +30,15 @@ VARIABLES Op,        \* "send" | "sendclose" | "free"    (chosen initially)
           enq,       \* frames of X the operation put into the write queue
           sched      \* the steps so far
 
-vars == <<Op, Ending, qfull, dropped, chClosed, phase, result, enq, sched>>
+vars == <<Op, Ending, Cause, qfull, dropped, chClosed, phase, result, enq, sched>>
 
 Init == /\ Op \in {"send", "sendclose", "free"} /\ Ending \in {"drain", "drop"}
+        /\ Cause \in {"queue", "window"} /\ (Cause = "window" => Op = "send")
         /\ qfull = TRUE /\ dropped = FALSE /\ chClosed = FALSE /\ phase = "none" /\ result = "none" /\ enq = 0
         /\ sched = <<>>
 
 Frame == 1       \* one frame either way (data, close+payload, close)
-Step(a) == sched' = Append(sched, [a |-> a, phase |-> phase', result |-> result']) /\ UNCHANGED <<Op, Ending>>
+Step(a) == sched' = Append(sched, [a |-> a, phase |-> phase', result |-> result']) /\ UNCHANGED <<Op, Ending, Cause>>
 
 \* the user calls the operation
 Start ==
@@ -56,7 +60,9 @@ PeerClose ==
     /\ chClosed' = TRUE
     /\ IF phase = "waiting" /\ Op = "free"
        THEN phase' = "returned" /\ result' = "ok"      \* the cancelled status of the wait is swallowed, Free returns
-       ELSE UNCHANGED <<phase, result>>                 \* Send / SendAndClose wait with the caller's context
+       ELSE IF phase = "waiting" /\ Cause = "window"
+       THEN phase' = "returned" /\ result' = "closed"  \* the wait for window also watches the channel's context
+       ELSE UNCHANGED <<phase, result>>                 \* Send / SendAndClose wait for queue room with the caller's context
     /\ UNCHANGED <<qfull, dropped, enq>>
     /\ Step("peerclose")
 
@@ -96,5 +102,5 @@ FreeReturnsOk == (Op = "free" /\ phase = "returned") => result = "ok"
 \* at most one frame is written for the operation, and none after the connection is gone
 OneFrame == enq <= 1
 
-Emit == Done => PrintT(ToJson([op |-> Op, sched |-> sched, result |-> result, enq |-> enq]))
+Emit == Done => PrintT(ToJson([op |-> Op, cause |-> Cause, sched |-> sched, result |-> result, enq |-> enq]))
 =============================================================================
